@@ -698,6 +698,11 @@ def quaternion_rules(ctx, rule='R3'):
     ctx.inst(rule, dq, 'reader-scale', any(norm(s.value) in ('mag / mask / np.sqrt(2)', 'mag / mask / math.sqrt(2)') for s in rq2), 'component = magnitude / 511 / sqrt2')
     ns = [s for s in walk_own(wl[0]) if isinstance(s, ast.Assign) and norm(s.targets[0]) == 'negbit']
     ng = [s_ for s_ in cq.node.body if isinstance(s_, ast.Assign) and norm(s_.targets[0]) == 'negate']
+    # ... read after the search has settled on the largest component: the sign test must not run before (or inside) the loop that
+    # moves i_largest
+    ng_late = bool(ng) and bool(sel) and all(s_.lineno > (sel[0].end_lineno or sel[0].lineno) and not any(x is s_ for x in ast.walk(sel[0])) for s_ in ng)
+    ctx.inst(rule, cq, 'negate-after-the-search', ng_late or not sel, 'the sign of the dropped component is taken after the loop that finds it; negate at line %s, search loop at %s' %
+             ([s_.lineno for s_ in ng], [sel[0].lineno] if sel else None))
     ctx.inst(rule, cq, 'negate=sign-of-largest', len(ng) == 1 and canon_test(ng[0].value) == canon_test(ast.parse('quat_n[i_largest] < 0', mode='eval').body),
              'the whole quaternion is negated exactly when the dropped (largest) component is negative - the decoder rebuilds it as a positive root; found %s' % [norm(s_.value) for s_ in ng])
     def xor_of_signs(v):
@@ -777,6 +782,7 @@ def scale_core(node):
 
 
 VARIANTS = [
+    M('R3', ENC, "    i_largest = 0\n    for i in range(1, 4):\n        if abs(quat_n[i]) > abs(quat_n[i_largest]):\n            i_largest = i\n    negate = quat_n[i_largest] < 0\n", "    i_largest = 0\n    negate = quat_n[i_largest] < 0\n    for i in range(1, 4):\n        if abs(quat_n[i]) > abs(quat_n[i_largest]):\n            i_largest = i\n", 'sign taken before the search'),
     M('R5', LEDT, "            if (timing['time'] & 0xFF) != 0 or led != 0 or extra != 0:", "            if timing['time'] != 0 or led != 0 or extra != 0:", 'filter tests the unmasked time'),
     M('R2', ENC, "    s = int((float16 >> 15) & 0x00000001)    # sign", "    s = int(float16 >> 15)    # sign", 'sign not masked: negative for the signed shorts of the angle stream'),
     M('R1', ENC, "            return struct.unpack('f', struct.pack('I', int(s << 31)))[0]", "            return int(s << 31)", 'F-13a reintroduced (zero)'),
